@@ -173,3 +173,12 @@ except ImportError:
 
 EXTERNAL_MODELS = {**RUST_MODELS, **TUNNEL_MODELS, **DH_MODELS}
 on_create_and_on_data_contracts()
+
+# bounded native stand-in: the classifiers against the specification on the real code, for rewrites the verifier has no model for
+# (regular expressions, ...): the symbolic contracts above then end undecided, this run still decides the sampled inputs
+native("classifiers-vs-spec", "natives/c06_classifiers.py",
+       bound="every byte string of length <= 5 (6 thorough) over {d, e, \\n, \\r, 00, 01, 41, ff}; every 2-byte header x 3 fixed tails; "
+             "40 000 (200 000 thorough) seeded random strings of length 0..64, a third of them shaped d...e / d...e\\n",
+       functions=[f"{ES}::DataChecker.could_be_utp", f"{ES}::DataChecker.could_be_udp_tracker", f"{ES}::DataChecker.could_be_dht",
+                  f"{ES}::DataChecker.could_be_bt", f"{ES}::DataChecker.could_be_ipv8"],
+       note="each classifier equals its specification on every sampled input")
